@@ -352,8 +352,9 @@ func instrumentFile(p *packages.Package, f *ast.File, fe *fileEdits) {
 				insertAfter(x, "R8")
 				return true
 			}
-			// R6: atomics and config props
-			if isR6(obj, full) {
+			// R6: atomics and config props (call sites only: the wrappers in
+			// utils/atomics are not instrumented inside, or every access would yield twice)
+			if p.PkgPath != "reservoir/utils/atomics" && isR6(obj, full) {
 				rtxt := fe.text(fset, sel.X)
 				if strings.HasPrefix(rtxt, "metrics.Global") {
 					return true
@@ -465,7 +466,7 @@ func isR7(pkg, full string) bool {
 		return false
 	}
 	switch full {
-	case "os.Create", "os.Open", "os.Remove", "os.RemoveAll", "os.Stat", "os.MkdirAll", "io.Copy",
+	case "os.Create", "os.CreateTemp", "os.Rename", "os.OpenFile", "os.WriteFile", "os.ReadFile", "os.Open", "os.Remove", "os.RemoveAll", "os.Stat", "os.MkdirAll", "io.Copy",
 		"(*os.File).Seek", "(*encoding/json.Encoder).Encode":
 		return true
 	}
